@@ -76,7 +76,9 @@ def verify_contract(repo: str, con: Any, contracts_by_target: dict[str, Any], mo
             interp.class_pref[cls_name] = relname
         for ordinal, loop in (con.__dict__.get("loops") or {}).items():
             if ordinal >= len(loop_nodes):
-                raise Unsupported(f"contract names loop #{ordinal} but the function has {len(loop_nodes)} loops")
+                # the loop the contract speaks about is gone: verify the function as it is now
+                result.setdefault("notes", []).append(f"contract names loop #{ordinal}; the function has {len(loop_nodes)} loops")
+                continue
             interp.loop_specs[id(loop_nodes[ordinal])] = loop
         fv = FuncV(node, file, qual, owner=owner)
         params: dict[str, Any] = con.__dict__.get("params") or {}
